@@ -3,7 +3,7 @@ C06 — model of the scalar-expression machinery of rulego/streamsql.
 
 (i)   `Expr`        the AST the generator draws from (literals, columns, unary minus, + - * /,
                     comparisons, AND/OR/NOT, searched and simple CASE, calls, parentheses);
-(ii)  `ev`          transliteration of the hand-written evaluator `expr/evaluator.go` +
+(ii)  `ev`          transliteration of the hand-written evaluator `expr/evaluator.go` (mode `.t` = evaluateTruth) +
                     `expr/case_expression.go` as reached from `Expression.EvaluateValueWithNull`:
                     mode `.w` = evaluateNodeValueWithNull, `.v` = evaluateNodeValue,
                     `.b` = evaluateBoolNode, `.chS`/`.chV` = the WHEN loops of
@@ -146,6 +146,7 @@ inductive Mode (ν : Type) where
   | w                                   -- evaluateNodeValueWithNull
   | v                                   -- evaluateNodeValue
   | b                                   -- evaluateBoolNode
+  | t                                   -- evaluateTruth (three-valued; UNKNOWN = `.val .null true`)
   | chS                                 -- WHEN loop of a searched CASE
   | chV (sv : Value ν) (sn : Bool)      -- WHEN loop of a simple CASE with the scrutinee's (value, isNull)
 
@@ -219,9 +220,49 @@ def orStep : Res ν → Res ν → Res ν
   | .val (.bool true) _, _ => .val (.bool true) false
   | _, _ => .err
 
-def notStep : Res ν → Res ν
+/-- NOT of `evaluateBoolOperator`: the operand comes from `evaluateTruth` (mode `.t`);
+NOT UNKNOWN is UNKNOWN, which a condition reports as "not true" -/
+def notB : Res ν → Res ν
   | .val (.bool b) _ => .val (.bool (!b)) false
+  | .val .null _ => .val (.bool false) false
   | _ => .err
+
+/-! #### `evaluateTruth`: three-valued conditions -/
+
+/-- a field value / function result as a truth value: nil is UNKNOWN -/
+def truthOfRes (env : Env ν) : Res ν → Res ν
+  | .err => .err
+  | .val .null _ => .val .null true
+  | .val v _ => .val (.bool (toBool env v)) false
+
+/-- `false AND x` without looking at `x`; then `x AND false`; UNKNOWN if either is; else TRUE -/
+def andT : Res ν → Res ν → Res ν
+  | .err, _ => .err
+  | .val (.bool false) _, _ => .val (.bool false) false
+  | .val _ _, .val (.bool false) _ => .val (.bool false) false
+  | .val l _, .val r _ => if l.isNull || r.isNull then .val .null true else .val (.bool true) false
+  | .val _ _, .err => .err
+
+def orT : Res ν → Res ν → Res ν
+  | .err, _ => .err
+  | .val (.bool true) _, _ => .val (.bool true) false
+  | .val _ _, .val (.bool true) _ => .val (.bool true) false
+  | .val l _, .val r _ => if l.isNull || r.isNull then .val .null true else .val (.bool false) false
+  | .val _ _, .err => .err
+
+def notT : Res ν → Res ν
+  | .val (.bool b) _ => .val (.bool (!b)) false
+  | .val .null _ => .val .null true
+  | _ => .err
+
+/-- comparison in `evaluateTruth`: a nil operand is UNKNOWN -/
+def cmpT (env : Env ν) (op : COp) : Res ν → Res ν → Res ν
+  | .val l _, .val r _ =>
+    if l.isNull || r.isNull then .val .null true
+    else match compareValues env op l r with
+      | some b => .val (.bool b) false
+      | none => .err
+  | _, _ => .err
 
 /-- mode `.b` applied to a value obtained in mode `.v` (fields, function results) -/
 def boolOfRes (env : Env ν) : Res ν → Res ν
@@ -256,39 +297,51 @@ def colRes (row : Row ν) (c : Str) : Res ν :=
 /-- the hand-written evaluator -/
 def ev (env : Env ν) (row : Row ν) : Expr → Mode ν → Res ν
   | .lit l, .b => .val (.bool (!(isZero (litVal l : ν)))) false
+  | .lit l, .t => .val (.bool (!(isZero (litVal l : ν)))) false
   | .lit l, .w => .val (.num (litVal l)) false
   | .lit l, .v => .val (.num (litVal l)) false
   | .str s, .b => .val (.bool (s ≠ [])) false
+  | .str s, .t => .val (.bool (s ≠ [])) false
   | .str s, .w => .val (.str s) false
   | .str s, .v => .val (.str s) false
   | .col c, .b => boolOfRes env (colRes row c)
+  | .col c, .t => truthOfRes env (colRes row c)
   | .col c, .w => colRes row c
   | .col c, .v => colRes row c
   | .paren e, .b => ev env row e .b
+  | .paren e, .t => ev env row e .t
   | .paren e, .w => ev env row e .w
   | .paren e, .v => ev env row e .v
   | .neg e, .b => .err
+  | .neg e, .t => .err
   | .neg e, .w => arithStep env .sub (.val (.num (ofNat 0)) false) (ev env row e .w)
   | .neg e, .v => arithStep env .sub (.val (.num (ofNat 0)) false) (ev env row e .w)
   | .arith _ _ _, .b => .err
+  | .arith _ _ _, .t => .err
   | .arith op l r, .w => arithStep env op (ev env row l .w) (ev env row r .w)
   | .arith op l r, .v => arithStep env op (ev env row l .w) (ev env row r .w)
   | .cmp op l r, .b => cmpStep env op (ev env row l .v) (ev env row r .v)
+  | .cmp op l r, .t => cmpT env op (ev env row l .v) (ev env row r .v)
   | .cmp op l r, .w => cmpStep env op (ev env row l .v) (ev env row r .v)
   | .cmp op l r, .v => cmpStep env op (ev env row l .v) (ev env row r .v)
   | .and l r, .b => andStep (ev env row l .b) (ev env row r .b)
+  | .and l r, .t => andT (ev env row l .t) (ev env row r .t)
   | .and l r, .w => andStep (ev env row l .b) (ev env row r .b)
   | .and l r, .v => andStep (ev env row l .b) (ev env row r .b)
   | .or l r, .b => orStep (ev env row l .b) (ev env row r .b)
+  | .or l r, .t => orT (ev env row l .t) (ev env row r .t)
   | .or l r, .w => orStep (ev env row l .b) (ev env row r .b)
   | .or l r, .v => orStep (ev env row l .b) (ev env row r .b)
-  | .not e, .b => notStep (ev env row e .b)
-  | .not e, .w => notStep (ev env row e .b)
-  | .not e, .v => notStep (ev env row e .b)
+  | .not e, .b => notB (ev env row e .t)
+  | .not e, .t => notT (ev env row e .t)
+  | .not e, .w => notB (ev env row e .t)
+  | .not e, .v => notB (ev env row e .t)
   | .caseS _, .b => .err
+  | .caseS _, .t => .err
   | .caseS ch, .w => ev env row ch .chS
   | .caseS ch, .v => ev env row ch .chS
   | .caseV _ _, .b => .err
+  | .caseV _ _, .t => .err
   | .caseV sc ch, .w =>
     match ev env row sc .w with
     | .val sv sn => ev env row ch (.chV sv sn)
@@ -298,12 +351,15 @@ def ev (env : Env ν) (row : Row ν) : Expr → Mode ν → Res ν
     | .val sv sn => ev env row ch (.chV sv sn)
     | .err => .err
   | .call1 f a, .b => boolOfRes env (callStep env f [ev env row a .v])
+  | .call1 f a, .t => truthOfRes env (callStep env f [ev env row a .v])
   | .call1 f a, .w => callStep env f [ev env row a .v]
   | .call1 f a, .v => callStep env f [ev env row a .v]
   | .call2 f a b, .b => boolOfRes env (callStep env f [ev env row a .v, ev env row b .v])
+  | .call2 f a b, .t => truthOfRes env (callStep env f [ev env row a .v, ev env row b .v])
   | .call2 f a b, .w => callStep env f [ev env row a .v, ev env row b .v]
   | .call2 f a b, .v => callStep env f [ev env row a .v, ev env row b .v]
   | .call3 f a b c, .b => boolOfRes env (callStep env f [ev env row a .v, ev env row b .v, ev env row c .v])
+  | .call3 f a b c, .t => truthOfRes env (callStep env f [ev env row a .v, ev env row b .v, ev env row c .v])
   | .call3 f a b c, .w => callStep env f [ev env row a .v, ev env row b .v, ev env row c .v]
   | .call3 f a b c, .v => callStep env f [ev env row a .v, ev env row b .v, ev env row c .v]
   -- WHEN loops
